@@ -165,13 +165,9 @@ def check(ctx, run):
     list_total_rule(prog, run, "R1")
 
     # ---------------- R3 ----------------------------------------------------
-    ro = prog.fn("UtestShell::runOneTestInCurrentProcess")
-    for p in enumerate_paths(ro):
-        if p.end != "return":
-            continue
-        seq = [(prog.callee_name(ro, c) or "").split("::")[-1] for c in path_calls(prog, ro, p)]
-        seq = [s for s in seq if s in ("runAllPreTestAction", "createTest", "run", "destroyTest", "runAllPostTestAction")]
-        run.ob("R3", "pre actions precede createTest (setup allocations are inside the period) and post actions follow destroyTest", ro.site, seq == ["runAllPreTestAction", "createTest", "run", "destroyTest", "runAllPostTestAction"], witness=seq)
+    # pre actions precede createTest (setup allocations are inside the period) and post actions follow destroyTest: the runner folded
+    from .C01 import bracketing_rule
+    bracketing_rule(prog, run, "R3")
     fr = prog.fn(PL + "::FinalReport")
     run.analysed(fr)
     okf = True
